@@ -325,12 +325,12 @@ fn c10_msg_open_port_listener_gone() {
 }
 
 with_lean_model! {
-/// @prop C10 C05
+/// @prop C10 C05 C02 C08
 /// @tier quick
 /// @fn chmux::mux::ChMux::handle_event(Accepted)
 /// @fn chmux::mux::ChMux::create_port
 /// @bounds one outstanding remote request O (plus the remote port number itself symbolic), accepted on local port P; both endpoints' buffer sizes symbolic
-/// emits exactly one PortOpened{client_port: O, server_port: P}, forgets the outstanding request, connects P to O and hands the accepting side a sender/receiver pair for exactly (P, O)
+/// emits exactly one PortOpened{client_port: O, server_port: P}, forgets the outstanding request, connects P to O and hands the accepting side a sender/receiver pair for exactly (P, O); the new port sends against the peer's advertised receive buffer and chunk size and polices receiving with the locally advertised buffer
 #[kani::proof]
 #[kani::unwind(4)]
 #[kani::stub(alloc::fmt::format, empty_format)]
@@ -358,6 +358,8 @@ fn c10_evt_accepted() {
         Ok((tx, rx)) => {
             assert!(tx.local_port() == P && tx.remote_port() == o);
             assert!(rx.local_port() == P && rx.remote_port() == o);
+            // the sender is bound by what the PEER advertised (its chunk size), never by the local settings
+            assert!(tx.chunk_size() == p.remote_chunk as usize);
             std::mem::forget((tx, rx));
         }
         Err(_) => panic!("accepting side must receive its port pair"),
@@ -365,6 +367,8 @@ fn c10_evt_accepted() {
     match hx::mux_port_view(&mux, P) {
         hx::PortView::Connected { remote_port, sender_credits, monitor, .. } => {
             assert!(remote_port == o);
+            // sending starts with exactly the buffer the peer advertised; receiving is policed with
+            // exactly the buffer this endpoint advertised (all four sizes are symbolic and independent)
             assert!(sender_credits.0 == p.remote_buffer);
             assert!(monitor == (0, p.local_buffer));
         }
